@@ -64,6 +64,7 @@ type Exec struct {
 	keySorts      map[string]*smt.Sort
 	escaped       map[*Cell]bool
 	shared        map[*Cell]bool // cells reachable by unknown code (state.go shareValue)
+	famSafety     bool           // safety obligations inside the closures being checked (family contract flagged "safety")
 	fam           *famEnv
 	famN          int
 	curCallee     *ssa.Function // callee of the library model being applied
